@@ -19,11 +19,11 @@ func init() {
 }
 
 type downCtx struct {
-	y       *Sys
-	prop    string
-	nRemote int
-	nIDs    int
-	metaReq uint32
+	y           *Sys
+	prop        string
+	nRemote     int
+	nIDs        int
+	metaReq     uint32
 	outstanding map[*downH]int // chunks delivered to the client but not yet read
 	outMeta     map[*downH]int
 }
@@ -447,8 +447,8 @@ func oracleC04(s *Sim, y *Sys, closedEarlyMap map[*downH]bool) {
 			up  string
 			seq uint32
 		}
-		returned := map[key]int{}       // every chunk a read returned
-		beforeClose := map[key]int{}    // ... by a read that had returned when Close was invoked
+		returned := map[key]int{}    // every chunk a read returned
+		beforeClose := map[key]int{} // ... by a read that had returned when Close was invoked
 		nReturned := 0
 		for _, r := range h.Reads {
 			if r.harvested && r.Err == nil {
